@@ -105,7 +105,7 @@ def histories(draw):
     )
     opts = draw(
         st.lists(
-            st.sampled_from(PRESETS + ["optimal", "optimal-outer", "p1_tuple", "p1_list", "p1_nested", "p2_tuple", "p2_list", "p2_nested", "e_tuple", "e_list", "tree_plain", "tree_sliced"]),
+            st.sampled_from(PRESETS + ["optimal", "optimal-outer", "p1_tuple", "p1_list", "p1_nested", "p1_tuple_of_lists", "p2_tuple", "p2_list", "p2_nested", "p2_tuple_of_lists", "e_tuple", "e_list", "tree_plain", "tree_sliced"]),
             min_size=1, max_size=3,
         )
     )
@@ -115,7 +115,8 @@ def histories(draw):
         st.lists(
             st.fixed_dictionaries(
                 {
-                    "strip": st.sampled_from([False, False, True, 1]),
+                    # (numpy booleans are what a comparison such as ``x.max() > 1e50`` yields)
+                    "strip": st.sampled_from([False, False, True, 1, "np_false", "np_true"]),
                     "impl": st.sampled_from([None, None, "cotengra", "autoray"]),
                     "prefer_einsum": st.sampled_from([False, False, True, 1, 1.0]),
                     "sort": st.sampled_from([False, False, True]),
@@ -309,7 +310,9 @@ def run_case(spec, sub=None):
                     optimize.remove_ind_(cand_[call["vk"] % len(cand_)])
         elif o.startswith("p"):
             explicit = paths[o[:2]]
-            if o.endswith("nested"):
+            if o.endswith("tuple_of_lists"):
+                optimize = tuple(list(st_) for st_ in explicit)
+            elif o.endswith("nested"):
                 # a list of lists (e.g. a path that went through JSON)
                 optimize = [list(st_) for st_ in explicit]
             else:
@@ -355,8 +358,12 @@ def run_case(spec, sub=None):
         if do_sort:
             kw["sort_contraction_indices"] = True
         strip = call["strip"]
+        if strip == "np_false":
+            strip = np.False_
+        elif strip == "np_true":
+            strip = np.True_
         via = call.get("via")
-        if via and not strip and fn in ("einsum", "array_contract", "expression", "expression_reuse", "einsum_expression"):
+        if via and fn in ("einsum", "array_contract", "expression", "expression_reuse", "einsum_expression"):
             kw["via"] = VIAS[via]
             factor = {"dbl": 2.0 ** n, "neg": -1.0, "same": 1.0}[via]
             exp = exp * factor
@@ -443,7 +450,9 @@ def run_case(spec, sub=None):
                             out["values"].append((r_mid, exp, not bool(strip)))
                     out["values"].append((e(*arrays2), exp2, bool(strip)))
             elif fn == "einsum_expression":
-                e = ctg.einsum_expression(eq, *shapes, optimize=optimize, strip_exponent=strip, cache=cache, **kw)
+                # (shapes handed over as tuples and lists mixed)
+                shp_arg = [list(s_) if (j_ + call["aseed"]) % 2 else tuple(s_) for j_, s_ in enumerate(shapes)]
+                e = ctg.einsum_expression(eq, *shp_arg, optimize=optimize, strip_exponent=strip, cache=cache, **kw)
                 out["values"].append((e(*arrays), exp, bool(strip)))
                 out["values"].append((e(*arrays2), exp2, bool(strip)))
             else:
